@@ -4,6 +4,7 @@ import gen_bank as G
 import gen_hops as H
 import hops_oracles as O
 from props import c14 as C14
+from props import c08 as C08
 ID = "C07"
 MANIFEST = {
     "text": ("Kernel-checked theorems about the model of lending_pool_handle_bankruptcy and Bank::socialize_loss, for every world, "
@@ -322,12 +323,17 @@ def suites(rng, tier):
             {"suite": "hopsref", "name": "hops-bankruptcy-accrual-reference", "lines": a, "impl_only": True,
              "distribution": {"cases": n, "note": "same scenario lines; adds the real accrue_interest applied in isolation, "
                                                    "so that the oracle knows the share value the loss was taken from"}},
-            C14.killed_suite(rng, {"quick": 150, "thorough": 3000, "search": 1000}[tier])]
+            C14.killed_suite(rng, {"quick": 150, "thorough": 3000, "search": 1000}[tier]),
+            {"suite": "auth", "name": "who-may-settle-bad-debt",
+             "lines": [l for l in C08.matrix() if C08.kvs(l)["ix"] == "lending_pool_handle_bankruptcy"],
+             "distribution": {"note": "the authorization-matrix cells of lending_pool_handle_bankruptcy (every signer role, permissionless flag on / off, every single account substitution) through the real entry point"}}]
 
 
 def nontrivial(suite, case, impl):
     if suite == "cfgsim":
         return C14.nontrivial(suite, case, impl)
+    if suite == "auth":
+        return C08.nontrivial(suite, case, impl)
     tr = O.Trace(case, impl)
     return tr.ok and any(op[0] == 18 and res == "OK" for op, res, *_ in O.walk(tr))
 
@@ -367,6 +373,8 @@ def slot_of(acct, b):
 
 
 def oracle(suite, case, impl):
+    if suite == "auth":
+        return C08.oracle(suite, case, impl)
     if suite == "cfgsim":
         return C14.oracle(suite, case, impl)      # 'permanently shut': no sequence of admin requests revives a killed bank
     tr = O.Trace(case, impl)
